@@ -21,6 +21,8 @@ def sh(cmd, cwd=None, timeout=3600):
 def main():
     if sys.argv[1] == "--recheck":
         return recheck(sys.argv[2], sys.argv[3:])
+    if sys.argv[1] == "--harmless":
+        return harmless(sys.argv[2], sys.argv[3], sys.argv[4:])
     seed, name, props = sys.argv[1], sys.argv[2], sys.argv[3:]
     patch = os.path.join(seed, "patch.diff")
     demo = os.path.join(seed, "demo.rs")
@@ -119,6 +121,58 @@ def run_checks(patch, props):
         for p in props:
             sh([sys.executable, os.path.join(ROOT, "tools", "check.py"), "--property", p, "--tier", "quick"], cwd=ROOT)
     return results
+
+
+def harmless(seed, name, props):
+    """tools/seed_eval.py --harmless <dir> <name> <property>…: a BEHAVIOUR-PRESERVING change
+    (refactoring).  Confirm in a scratch worktree that the pinned suite and the author's demo pass
+    with it, then apply it to /repo, run the quick checks and record which of them raise an alarm
+    (none should)."""
+    patch = os.path.join(seed, "patch.diff")
+    demo = os.path.join(seed, "demo.rs")
+    wt = "/tmp/seedcheck_" + name
+    meta = {"name": name, "kind": "harmless", "checked_properties": props, "ran": []}
+    sh(["git", "-C", "/repo", "worktree", "remove", "--force", wt])
+    rc, o = sh(["git", "-C", "/repo", "worktree", "add", "--detach", wt, "HEAD"])
+    assert rc == 0, o
+    try:
+        td = ["--target-dir", wt + "/target"]
+        rc, o = sh(["git", "apply", patch], cwd=wt)
+        meta["patch_applies"] = rc == 0
+        if rc == 0:
+            feats = []
+            if os.path.exists(demo):
+                text = open(demo).read()
+                fl = [f for f, k in (("ffi", "extern \"C\""), ("cli", "CARGO_BIN_EXE")) if k in text]
+                if fl:
+                    feats = ["--features", " ".join(fl)]
+                os.makedirs(os.path.join(wt, "tests"), exist_ok=True)
+                shutil.copy(demo, os.path.join(wt, "tests", "seed_demo.rs"))
+                rc1, o1 = sh(["cargo", "test", "--offline", "--test", "seed_demo"] + feats + td, cwd=wt)
+                meta["demo_passes_with_patch"] = rc1 == 0
+                meta["ran"].append("cargo test --offline --test seed_demo (patched): rc=%d" % rc1)
+                os.remove(os.path.join(wt, "tests", "seed_demo.rs"))
+            rc2, o2 = sh(["cargo", "test", "--workspace", "--no-fail-fast", "--offline"] + td, cwd=wt)
+            meta["suite_passes_with_patch"] = rc2 == 0
+            meta["suite_summary"] = [l for l in o2.split("\n") if l.startswith("test result")]
+            meta["ran"].append("cargo test --workspace --no-fail-fast --offline (patched): rc=%d" % rc2)
+    finally:
+        sh(["git", "-C", "/repo", "worktree", "remove", "--force", wt])
+    meta["confirmed"] = bool(meta.get("patch_applies") and meta.get("suite_passes_with_patch") and meta.get("demo_passes_with_patch", True))
+    results = run_checks(patch, props) if meta["confirmed"] else {}
+    meta["check_results"] = results
+    meta["alarms"] = [p for p, r in results.items() if r["exit"] != 0]
+    out = os.path.join(ROOT, "seeded", name)
+    os.makedirs(out, exist_ok=True)
+    shutil.copy(patch, os.path.join(out, "patch.diff"))
+    for f in ("demo.rs", "README.md"):
+        if os.path.exists(os.path.join(seed, f)):
+            shutil.copy(os.path.join(seed, f), os.path.join(out, f))
+    json.dump(meta, open(os.path.join(out, "meta.json"), "w"), indent=1)
+    print(json.dumps({k: meta[k] for k in ["name", "confirmed", "alarms"]}, indent=1))
+    for p, r in results.items():
+        if r["exit"] != 0:
+            print(p, r["exit"], (r["violation_line"] or [""])[0][-60:], r["verdict"][:200])
 
 
 def recheck(name, props):
